@@ -399,18 +399,13 @@ theorem C04.build_rejects {K : Type} [Field K] [DecidableEq K]
   | none => rfl
   | some i => rw [hb] at h; simp at h
 
-/- Full-strength statement of flag completeness (FALSE on the code as it exists, finding
-C04-F1):
-   `∀ e i, EnvOK env e → build env e = some i → linOf e = true → i.lin = true`.
-`FunctionalRightVectorMult.__init__` re-initialises through `Functional.__init__(space)` and
-drops `linear=func.is_linear`; see `C04.linear_flag_complete_fails`. -/
-
-/-- `linear_flag_complete_partial`: the `is_linear` flag implied by the expression (`linOf`:
-sums, compositions, scalar/vector multiples, powers of linear operands) IS set on the built
-object — for every expression that contains no `f * v` with `f` a `Functional` object
-(`NoFnRVec`, the call site of C04-F1).  Missing for the full statement: that call site. -/
-theorem C04.linear_flag_complete_partial {K : Type} [Field K] [DecidableEq K] (env : Nat → Vec K → Vec K) (e : Expr K)
-    (henv : EnvOK env e) (hno : NoFnRVec env e) :
+/-- `linear_flag_complete`: the `is_linear` flag implied by the expression (`linOf`: sums,
+compositions, scalar/vector multiples and powers of linear operands) IS set on the built
+object, for every expression.  (Full statement since the repair of C04-F1 in /repo:
+`FunctionalRightVectorMult` now passes `linear=func.is_linear` on; before, the case `f * v`
+with `f` a linear `Functional` was a counterexample.) -/
+theorem C04.linear_flag_complete {K : Type} [Field K] [DecidableEq K]
+    (env : Nat → Vec K → Vec K) (e : Expr K) (henv : EnvOK env e) :
     ∀ i, build env e = some i → linOf e = true → i.lin = true := by
   induction e with
   | leaf l =>
@@ -420,12 +415,12 @@ theorem C04.linear_flag_complete_partial {K : Type} [Field K] [DecidableEq K] (e
     intro i h hl
     simp only [build, Option.map_eq_some_iff] at h
     obtain ⟨a', ha', rfl⟩ := h
-    exact lin_opRMulScal_of a' _ (ih henv hno a' ha' hl)
+    exact lin_opRMulScal_of a' _ (ih henv a' ha' hl)
   | pow a n ih =>
     intro i h hl
     simp only [build, Option.bind_eq_some_iff] at h
     obtain ⟨a', ha', h⟩ := h
-    rw [lin_opPow h]; exact ih henv hno a' ha' hl
+    rw [lin_opPow h]; exact ih henv a' ha' hl
   | bin o a b iha ihb =>
     intro i h hl
     cases ha : build env a with
@@ -439,16 +434,16 @@ theorem C04.linear_flag_complete_partial {K : Type} [Field K] [DecidableEq K] (e
         | add =>
           simp only [linOf, Bool.and_eq_true] at hl
           simp only at h
-          rw [lin_opAdd h, iha henv.1 hno.1 a' ha hl.1, ihb henv.2 hno.2 b' hb hl.2]; rfl
+          rw [lin_opAdd h, iha henv.1 a' ha hl.1, ihb henv.2 b' hb hl.2]; rfl
         | sub =>
           simp only [linOf, Bool.and_eq_true] at hl
           simp only at h
-          rw [lin_opAdd h, iha henv.1 hno.1 a' ha hl.1,
-            lin_opRMulScal_of b' _ (ihb henv.2 hno.2 b' hb hl.2)]; rfl
+          rw [lin_opAdd h, iha henv.1 a' ha hl.1,
+            lin_opRMulScal_of b' _ (ihb henv.2 b' hb hl.2)]; rfl
         | mul =>
           simp only [linOf, Bool.and_eq_true] at hl
           simp only at h
-          rw [lin_opMul h, iha henv.1 hno.1 a' ha hl.1, ihb henv.2 hno.2 b' hb hl.2]; rfl
+          rw [lin_opMul h, iha henv.1 a' ha hl.1, ihb henv.2 b' hb hl.2]; rfl
         | pprod => simp [linOf] at hl
         | quot => simp [linOf] at hl
   | sc o a s ih =>
@@ -461,15 +456,15 @@ theorem C04.linear_flag_complete_partial {K : Type} [Field K] [DecidableEq K] (e
       cases o with
       | lmul =>
         simp only [Option.some.injEq] at h; subst h
-        exact lin_opRMulScal_of a' _ (ih henv hno a' ha hl)
+        exact lin_opRMulScal_of a' _ (ih henv a' ha hl)
       | rmul =>
         simp only [Option.some.injEq] at h; subst h
-        exact lin_opMulScal_of env _ hinv (ih henv hno a' ha hl)
+        exact lin_opMulScal_of env _ hinv (ih henv a' ha hl)
       | div =>
         simp only at h
         split_ifs at h
         simp only [Option.some.injEq] at h; subst h
-        exact lin_opMulScal_of env _ hinv (ih henv hno a' ha hl)
+        exact lin_opMulScal_of env _ hinv (ih henv a' ha hl)
       | add => simp [linOf] at hl
       | radd => simp [linOf] at hl
       | sub => simp [linOf] at hl
@@ -483,23 +478,14 @@ theorem C04.linear_flag_complete_partial {K : Type} [Field K] [DecidableEq K] (e
       cases o with
       | lmul =>
         simp only at h
-        rw [lin_opRMulVec h]; exact ih henv hno.1 a' ha hl
+        rw [lin_opRMulVec h]; exact ih henv a' ha hl
       | rmul =>
         simp only at h
-        rw [lin_opMulVec h, hno.2 rfl a' ha]
-        simpa using ih henv hno.1 a' ha hl
+        rw [lin_opMulVec h]; exact ih henv a' ha hl
       | add => simp [linOf] at hl
       | radd => simp [linOf] at hl
       | sub => simp [linOf] at hl
       | rsub => simp [linOf] at hl
-
-/-- Counterexample on the model of the code as it exists (finding C04-F1): for a linear
-`Functional` leaf `f`, `f * v` builds a `FunctionalRightVectorMult` whose flag is `False`
-although the expression is linear. -/
-theorem C04.linear_flag_complete_fails :
-    ∃ (e : Expr ℚ) (i : Impl ℚ), build (fun _ x => x) e = some i ∧ linOf e = true ∧
-      i.lin = false :=
-  ⟨.vc .rmul (.leaf ⟨0, .vec 3, .fld, true, true⟩) ⟨3, fun _ => 2⟩, _, rfl, rfl, rfl⟩
 
 /-! ### Non-vacuity: concrete instances -/
 
@@ -551,7 +537,7 @@ example : ∃ i, build envQ fQ = some i ∧ run envQ i (fun _ => 1) 0 = 150 := b
   simp only [den, fQ, F, envQ]; norm_num
 
 open OdlModel.C04 in
-/-- `linear_flag_sound` / `linear_flag_complete_partial` are not vacuous: `(3 * M) * 2 - M`
+/-- `linear_flag_sound` / `linear_flag_complete` are not vacuous: `(3 * M) * 2 - M`
 is flagged linear. -/
 example : ∃ i, build envQ (.bin .sub (.sc .rmul (.sc .lmul M 3) 2) M) = some i ∧ i.lin = true :=
   ⟨_, rfl, rfl⟩
